@@ -76,7 +76,7 @@ def check_positive(case):
     kind, net = case["kind"], case["net"]
     payload = bx(case["payload"])
     f = Fails()
-    cls = []
+    cls = ["nt:program-looks-like-other-input"] if case.get("lookalike") else []
     if kind == "witness":
         v = case["witver"]
         want = template("witness", payload, v)
@@ -126,6 +126,11 @@ def check_key(case):
             k = k % (ec.N - 1) + 1
             pt = ec.mul(k, ec.G)
         cls.append("nt:key-bytes-with-whitespace-or-nul-at-an-end")
+    if case.get("high") is not None:
+        # a valid point with a coordinate between the group order and the field prime
+        hp = gen.high_coord_points()
+        pt = hp[case["high"] % len(hp)][1]
+        cls.append("nt:key-coordinate-in-n..p")
     for comp in (True, False):
         pk = ec.sec1_encode(pt, comp)
         spk = attempt(bits.script.scriptpubkey, pk)
@@ -179,6 +184,14 @@ def enum_positive(tier):
             for ln in lens:
                 for fill, _ in (fills if tier == "thorough" or ln in (2, 20, 32, 40) else fills[2:]):
                     yield {"kind": "witness", "net": net, "witver": v, "payload": fill * ln}
+            if v:
+                # programs that look like another kind of input: a compressed public key (33 bytes), an x-only key (32),
+                # hex text, text with whitespace at the ends - a program is opaque and must be committed to as it is
+                for k in (1, 2, 3):
+                    yield {"kind": "witness", "net": net, "witver": v, "payload": ec.sec1_encode(ec.mul(k, ec.G), True).hex(), "lookalike": 1}
+                yield {"kind": "witness", "net": net, "witver": v, "payload": ec.G[0].to_bytes(32, "big").hex(), "lookalike": 1}
+                yield {"kind": "witness", "net": net, "witver": v, "payload": (b"00ff" * 5).hex(), "lookalike": 1}
+                yield {"kind": "witness", "net": net, "witver": v, "payload": (b" " + bytes(range(1, 19)) + b"\n").hex(), "lookalike": 1}
 
 
 @st.composite
@@ -323,10 +336,10 @@ def negative_cases(draw):
 
 def _targets(tier):
     return [
-        Target("positive", check_positive, enumerate_=enum_positive, required=["nt:v1-len40", "nt:v16-len2", "nt:witness-version>=1", "nt:program-len-not-20-32"]),
+        Target("positive", check_positive, enumerate_=enum_positive, required=["nt:v1-len40", "nt:v16-len2", "nt:witness-version>=1", "nt:program-len-not-20-32", "nt:program-looks-like-other-input"]),
         Target("positive-random", check_positive, strategy=lambda tier: positive_random(), budget={"quick": 3000, "thorough": 60000}),
-        Target("keys", check_key, strategy=lambda tier: st.fixed_dictionaries({"k": gen.scalars_valid(), "edge": st.sampled_from([False, False, True])}), budget={"quick": 400, "thorough": 8000},
-               required=["nt:key-bytes-with-whitespace-or-nul-at-an-end"]),
+        Target("keys", check_key, strategy=lambda tier: st.fixed_dictionaries({"k": gen.scalars_valid(), "high": st.sampled_from([None] * 7 + list(range(15))), "edge": st.sampled_from([False, False, True])}), budget={"quick": 400, "thorough": 8000},
+               required=["nt:key-bytes-with-whitespace-or-nul-at-an-end", "nt:key-coordinate-in-n..p"]),
         Target("negative", check_negative, strategy=lambda tier: negative_cases(), budget={"quick": 5000, "thorough": 100000},
                required=["nt:pk-wrong-len-for-prefix", "nt:unknown-b58-version", "nt:mut-segwit", "nt:mut-b58", "nt:pk-hybrid", "expect-refuse",
                          "nt:segwit-bad-proglen", "nt:segwit-wrong-const", "nt:segwit-bad-version", "nt:segwit-nonzero-pad", "nt:pk-coord-aliased", "nt:b58-no-version", "nt:segwit-mixed-case"]),
